@@ -67,7 +67,9 @@ RESET = "\033[0m"
 
 
 def location_or_default(location):
-    if not location:
+    # A location that was never filled in has no flags worth keeping; a synthetic
+    # location at 0:0 is falsy too, but must stay synthetic.
+    if location is None:
         return parser_types.SourceLocation((0, 0), (0, 0))
     return location
 
